@@ -122,6 +122,7 @@ fn c02(quick: bool) -> PropRun {
     let d = if quick { 2 } else { 3 };
     let dev = if quick { 6 } else { 10 };
     let mut scs = from_pool(quick, "C02", oracles | O_C01);
+    scs.extend(peer_stream_scenarios("C02", quick, O_C02S | O_C01 | O_DEADLINE));
     for cfg in grid.iter() {
         if quick && !(cfg.pwin == 4 || (cfg.pwin == 4096 && cfg.pbase[0] == 0)) { continue; }
         for (name, ops) in mixed_scripts() {
@@ -156,6 +157,32 @@ fn c02(quick: bool) -> PropRun {
 }
 
 // ------------------------------------------------------------------------------------------------
+/// A peer that streams small Unreliable packets at every step (or every 5th) for the whole run, while this side submits a few packets
+/// of its own, cold or after a warm-up exchange; ideal network. Judged per packet (delivered within T_live of submission).
+pub fn peer_stream_scenarios(prop: &str, quick: bool, oracles: u32) -> Vec<Scenario> {
+    use SendMode::*;
+    let mut scs = Vec::new();
+    let total = T_LIVE_ROUNDS + 400;
+    for (name, every, warm_first) in [("every-step", 1usize, false), ("every-5th-step", 5, false), ("every-step.warm", 1, true)] {
+        if quick && name == "every-5th-step" { continue; }
+        let mut ops: Vec<Op> = Vec::new();
+        if warm_first { ops.push(send(0, 0, 63, Reliable, 30)); }
+        let start = if warm_first { 40 } else { 0 };
+        // the stream ends 4 s before the horizon, so that at the horizon nothing is in flight
+        ops.extend((0..(total - 200 - start) / every).map(|k| send(start + every * k, 1, 1, Unreliable, 20)));
+        ops.push(send(start + 50, 0, 0, Reliable, 40)); ops.push(send(start + 50, 0, 0, Unreliable, 41)); ops.push(send(start + 60, 0, 2, Reliable, 3000));
+        ops.sort_by_key(|o| o.round);
+        let si = Arc::new(ScriptInfo::new(ops));
+        for cad in [20u64, 5] {
+            if quick && cad == 5 { continue; }
+            let env = LwEnv { fates: FATES_NONE, deltas: &[20, 0, 2000], dev_rounds: 3, dev_start: start + 49, max_rounds: total, skip_choice: false, flush_choice: true, blackouts: &[],
+                              stop_when_idle: false, fair_delta: cad, slow_after: usize::MAX, slow_delta: 250, fuel: 2_000_000, shifts: &[] };
+            scs.push(spec(&format!("{}.peer-streams.{}", prop, name), &LwCfg { pwin: 4096, fwin: 4096, ..LwCfg::small() }, &si, env, if quick { 0 } else { 1 }, oracles));
+        }
+    }
+    scs
+}
+
 fn c05(quick: bool) -> PropRun {
     let mut scs = Vec::new();
     let oracles = O_C05 | O_C01 | O_FSIZE | O_LIVE;
@@ -201,6 +228,9 @@ fn c05(quick: bool) -> PropRun {
             scs.push(spec(&format!("C05.{}", name), &c, &si, env, d, oracles));
         }
     }
+    // the peer streams small packets from the start and goes on until the horizon; this side submits its first packets while it owes
+    // acknowledgements all the time (no RTT estimate of its own yet, or one from an earlier exchange)
+    scs.extend(peer_stream_scenarios("C05", quick, O_C05 | O_C01 | O_DEADLINE));
     // the shared pool's scripts and configurations on the ideal network (its fault menus are replaced by timing deviations)
     for mut sp in crate::pool::lw_pool(quick) {
         let (mut env, _) = ideal(sp.cfg.latency, if quick { 3 } else { 5 });
